@@ -81,6 +81,14 @@ func (r *ResponseRecorder) Write(buf []byte) (int, error) {
 	return n, err
 }
 
+// Flush implements http.Flusher. Flushing commits the header with the status
+// recorded so far (200 if none was set), so a later WriteHeader does not change
+// what the client received and must not change the recorded status either.
+func (r *ResponseRecorder) Flush() {
+	r.wroteHeader = true
+	r.ResponseWriterWrapper.Flush()
+}
+
 // Size returns the size of the recorded response body.
 func (r *ResponseRecorder) Size() int {
 	return r.size
